@@ -8,6 +8,7 @@ extern "C"
 {
     int lg_sizeof(void);
     void lg_init(void *a, void *buf, int cap);
+    void lg_setbuf(void *a, void *buf, int cap);
     int lg_newchar(void *a, unsigned char c);
     int lg_state(void *a);
     unsigned lg_len(void *a);
@@ -43,6 +44,21 @@ namespace gs
                 lg_init(lg, buf, cap);
             else
                 cpp.init(buf, cap);
+        }
+        // the same receiver object used for the next packet with another buffer (state as the last packet left it;
+        // the legacy object was zero-filled once, in the constructor)
+        void reinit(uint8_t *buf, int cap)
+        {
+            if (k == LEGACY)
+                lg_setbuf(lg, buf, cap);
+            else
+                cpp.init(buf, cap);
+        }
+        // the same configurable receiver object re-assigned in place to another alphabet
+        void rebind(Codec k2)
+        {
+            k = k2;
+            cpp = gstuff_autorecv(ctx_of(k2));
         }
         int put(uint8_t c)
         {
